@@ -22,6 +22,8 @@ WITNESSES = [
      'type-level witness: is_stop_never_possible_v is true exactly for tokens whose constexpr stop_possible() returns false (unstoppable_token) and false for inplace_stop_token and for tokens whose constexpr stop_possible() returns true; the inplace_stop_token_adapter keeps its forwarding state for every stoppable token'),
     ('R-WITNESS-NOEXCEPT', ['C09', 'C08', 'C02'], 'noexcept_honesty.cpp', None,
      'type-level witness: spawn_detached() is not noexcept when it has to allocate the operation state (bad_alloc must propagate out of spawn instead of terminating)'),
+    ('R-WITNESS-HOP', ['C10', 'C11'], 'affinity_hop.cpp', ['d20', 'r20', 'v20'],
+     'type-level witness (C++20): the hop back to the scheduler that with_scheduler_affinity() appends to a non-affine sender (every co_await in a task<>) is started with unstoppable_token, while the awaited sender still sees the consumer\'s stop token; affine senders are returned unchanged'),
     ('R-WITNESS-NOEXCEPT-CORO', ['C10', 'C05'], 'noexcept_coro.cpp', ['d20', 'r20', 'v20'],
      'type-level witness (C++20): the receiver storing a co_awaited value is noexcept exactly when constructing the value from the arguments actually passed cannot throw'),
 ]
